@@ -618,6 +618,12 @@ def main():
     for v, o in zip(vs, ['fwd', 'fwd', 'rev', 'fwd', 'fwd']):
         v.attr_order = o
     it.variants = vs
+    # sizes at the edge of the format: every u8 variant index in use; more members than a one-byte compact length holds
+    it = cat_item()
+    it.is_enum = True
+    it.variants = [Variant(f'V{i}', 'u' if i not in (0, 128, 255) else 'x', [] if i not in (0, 128, 255) else [Field(None, u8)]) for i in range(256)]
+    it = cat_item()
+    it.fields = [Field(f'f{i}', [u8, bl, u16][i % 3]) for i in range(70)]
     # segment replacement: a segment occurring twice, rows that chain, the same search segment in two rows
     it = cat_item(mods=['cat', 'cat'])
     it.replace, it.fields = [('cat', 'x')], [Field('a', u8)]
